@@ -114,6 +114,14 @@ def generate(rng, tier):
     for np in (257, 65537, N, N - 1, (1 << 255) + 1):
         for g, a in ((1, 5), (16, 2), (16, 1), (2, 8), (2, 16), (4, 4)):
             self_case(g, np, a, "client-self-A-small-under-special-N'")
+    # the client's own key is zero as a NUMBER, not in its low machine words: announced moduli m * 2^k (m odd > 1) with an even generator
+    # make A = g^a mod N' a non-zero value whose low k bits are all zero (k = 8, 16, 32, 64, 128, 192)
+    for k in (8, 16, 32, 64, 128, 192):
+        for m in (3, 5, 255, (rng.getrandbits(32) | 1) + 2):
+            for g in (2, 4, 6, 254):
+                for a in (k, k + 1, 255):
+                    if m * (1 << k) < (1 << 256):
+                        self_case(g, m << k, a, "client-self-A-low-%d-bits-zero" % k)
     return cs
 
 def nontrivial(case, out):
